@@ -34,10 +34,14 @@ def strip_doc(body):
     return body
 
 
+HELPERS = {}          # name -> index of the module-level helper functions (one positional parameter), set by generate()
+STRCONSTS = set()     # module-level names bound to a string constant
+
+
 class Fn:
     """translation of one function body"""
     def __init__(self, fn, ident, kind):
-        self.fn, self.ident, self.kind = fn, ident, kind     # kind: 'dep' | 'dl' | 'merge' | 'mro'
+        self.fn, self.ident, self.kind = fn, ident, kind     # kind: 'dep' | 'dl' | 'merge' | 'mro' | 'helper'
         self.vars = {}                 # python name -> index
         self.bound = set()
         self.noassign = set()          # loop variables of plain `for`: read-only
@@ -61,6 +65,8 @@ class Fn:
                 bad('parameters of mro are not (cls, getbases)', fn)
             self.getbases = names[1]
             self.nomutate.update(names)
+        if kind == 'helper':
+            self.nomutate.update(names)
 
     def bind(self, name):
         if name not in self.vars:
@@ -82,6 +88,8 @@ class Fn:
                 return 'ENone'
             if e.value is True:
                 return 'ETrue'
+            if e.value is False:
+                return 'EFalse'
             if isinstance(e.value, int) and not isinstance(e.value, bool) and 0 <= e.value < 1000:
                 return '(EInt %d)' % e.value
             bad('constant', e)
@@ -90,9 +98,14 @@ class Fn:
         if isinstance(e, ast.List):
             if len(e.elts) == 0:
                 return 'ENil'
-            if len(e.elts) == 1 and not isinstance(e.elts[0], ast.Starred):
-                return '(EList1 %s)' % self.expr(e.elts[0])
-            bad('list display', e)
+            # [a, *b, c]  ==  [a] + b + [c]
+            parts = [self.expr(x.value) if isinstance(x, ast.Starred) else '(EList1 %s)' % self.expr(x) for x in e.elts]
+            r = parts[0]
+            for q in parts[1:]:
+                r = '(EConcat %s %s)' % (r, q)
+            return r
+        if isinstance(e, ast.IfExp):
+            return '(EIfExp %s %s %s)' % (self.expr(e.test), self.expr(e.body), self.expr(e.orelse))
         if isinstance(e, ast.Attribute):
             if e.attr == '_lists':
                 return '(EField %s)' % self.expr(e.value)
@@ -176,6 +189,8 @@ class Fn:
                     bad('lambda parameters', e)
                 src = self.expr(args[1])
                 return self.comp(la.args[0].arg, lam.body, src, e)
+            if self.kind == 'merge' and n in HELPERS and plain and len(args) == 1:
+                return '(EHelper %d %s)' % (HELPERS[n], self.expr(args[0]))
             if self.kind == 'mro' and n == self.getbases and plain and len(args) == 1:
                 return '(EGetbases %s)' % self.expr(args[0])
             if self.kind == 'mro' and n == 'mro' and plain and len(args) == 2:
@@ -271,16 +286,49 @@ class Fn:
             el = self.block(s.orelse)
             self.bound = b1 & self.bound
             return '(SIf %s %s %s)' % (c, th, el)
+        if isinstance(s, ast.Continue):
+            return 'SContinue'
         if isinstance(s, ast.While):
-            if not (isinstance(s.test, ast.Constant) and s.test.value is True) or s.orelse:
-                bad('while loop other than `while True:` without else', s)
+            if s.orelse:
+                bad('while loop with else', s)
             self.nloops += 1
             k = self.nloops
             before = set(self.bound)
-            body = self.block(s.body)
+            if isinstance(s.test, ast.Constant) and s.test.value is True:
+                body = self.block(s.body)
+            else:
+                # while c: B   ==   while True: (if c: pass else: break); B
+                guard = '(SIf %s SSkip SBreak)' % self.expr(s.test)
+                body = self.seq([guard, self.block(s.body)])
             self.bound = before                     # conservative: nothing bound in the body is relied on after the loop
             nb = self.emit('code_%s_loop%d_body' % (self.ident, k), 'stmt', body)
             return self.emit('code_%s_loop%d' % (self.ident, k), 'stmt', '(SWhileTrue %s)' % nb)
+        if (isinstance(s, ast.For) and isinstance(s.target, ast.Tuple) and len(s.target.elts) == 2
+                and all(isinstance(t, ast.Name) for t in s.target.elts) and not s.orelse
+                and isinstance(s.iter, ast.Call) and isinstance(s.iter.func, ast.Name) and s.iter.func.id == 'zip'
+                and 'zip' not in self.vars and not s.iter.keywords and len(s.iter.args) == 2
+                and isinstance(s.iter.args[0], ast.Attribute) and s.iter.args[0].attr == '_lists'
+                and isinstance(s.iter.args[0].value, ast.Name)):
+            # for x, y in zip(NAME._lists, e): body
+            self.nloops += 1
+            k = self.nloops
+            tx, ty = s.target.elts[0].id, s.target.elts[1].id
+            if tx in self.bound or ty in self.bound or tx == ty:
+                bad('loop variables re-use a bound name', s)
+            sv = self.use(s.iter.args[0].value.id, s)
+            src = self.expr(s.iter.args[1])
+            before = set(self.bound)
+            x = self.bind(tx)
+            y = self.bind(ty)
+            self.noassign.update((tx, ty))
+            self.nomutate.add(ty)
+            body = self.block(s.body)
+            self.noassign.difference_update((tx, ty))
+            self.bound = before
+            nv = self.emit('code_%s_loop%d_var' % (self.ident, k), 'var', '%d' % x)
+            nw = self.emit('code_%s_loop%d_var2' % (self.ident, k), 'var', '%d' % y)
+            nb = self.emit('code_%s_loop%d_body' % (self.ident, k), 'stmt', body)
+            return self.emit('code_%s_loop%d' % (self.ident, k), 'stmt', '(SForFieldZip %s %s %d %s %s)' % (nv, nw, sv, src, nb))
         if isinstance(s, ast.For):
             if not isinstance(s.target, ast.Name):
                 bad('for target', s)
@@ -330,8 +378,9 @@ class Fn:
                 bad('raise', s)
             ex = s.exc
             if isinstance(ex, ast.Call) and isinstance(ex.func, ast.Name) and not ex.keywords and all(
-                    isinstance(a, (ast.Constant, ast.JoinedStr)) for a in ex.args):
-                ex = ex.func
+                    isinstance(a, (ast.Constant, ast.JoinedStr)) or (isinstance(a, ast.Name) and a.id in STRCONSTS
+                                                                      and a.id not in self.vars) for a in ex.args):
+                ex = ex.func                       # the message is not modelled
             if isinstance(ex, ast.Name) and ex.id in EXN and ex.id not in self.vars:
                 return '(SRaise %s)' % EXN[ex.id]
             bad('raised exception', s)
@@ -384,8 +433,22 @@ def generate() -> dict:
     imports = [ast.unparse(n) for n in tree.body if isinstance(n, (ast.Import, ast.ImportFrom))]
     pin('from collections import deque' in imports, '`deque` is collections.deque')
     pin('from itertools import islice' in imports, '`islice` is itertools.islice')
-    top = {n.name for n in tree.body if isinstance(n, (ast.FunctionDef, ast.ClassDef))}
-    pin(top == {'Dependency', 'DependencyList', '_merge', 'mro'}, 'top-level definitions of mro.py are %s' % sorted(top))
+    top = [n.name for n in tree.body if isinstance(n, (ast.FunctionDef, ast.ClassDef))]
+    pin(len(set(top)) == len(top) and {'Dependency', 'DependencyList', '_merge', 'mro'} <= set(top)
+        and all(isinstance(n, ast.FunctionDef) for n in tree.body
+                if isinstance(n, (ast.FunctionDef, ast.ClassDef)) and n.name not in ('Dependency', 'DependencyList')),
+        'top-level definitions of mro.py are %s' % sorted(top))
+    # other module-level functions: helpers of one positional parameter, translated like the rest
+    HELPERS.clear()
+    STRCONSTS.clear()
+    helper_fns = [n for n in tree.body if isinstance(n, ast.FunctionDef) and n.name not in ('_merge', 'mro')]
+    for i, n in enumerate(helper_fns):
+        pin(not n.decorator_list and len(n.args.args) == 1 and n.args.vararg is None, 'helper function %s' % n.name)
+        HELPERS[n.name] = i
+    for n in tree.body:
+        if (isinstance(n, ast.Assign) and len(n.targets) == 1 and isinstance(n.targets[0], ast.Name)
+                and isinstance(n.value, ast.Constant) and isinstance(n.value.value, str)):
+            STRCONSTS.add(n.targets[0].id)
     D = find(tree.body, ast.ClassDef, 'Dependency')
     L = find(tree.body, ast.ClassDef, 'DependencyList')
     pin([ast.unparse(b) for b in D.bases] == ['deque'] and not D.keywords, 'Dependency is not a plain subclass of deque')
@@ -419,17 +482,24 @@ def generate() -> dict:
         t = Fn(fn, ident, kind)
         t.translate()
         fns.append((field, t))
+    helpers = []
+    for n in helper_fns:
+        t = Fn(n, 'helper_' + n.name.strip('_'), 'helper')
+        t.translate()
+        helpers.append(t)
     merge = dict(fns)['c_merge']
     if set(merge.roles) != {'lin', 'result'}:
         bad('_merge: cannot tell the result list and the DependencyList apart (roles %s)' % merge.roles)
 
     lines = ['From Coq Require Import NArith List.', 'Import ListNotations.',
              'From PydoctorVerif Require Import Model.Mro Model.MroIR.', 'Local Open Scope N_scope.', '']
-    for field, t in fns:
+    for field, t in [(None, h) for h in helpers] + fns:
         lines.append('(* %s : variables %s *)' % (t.fn.name, ', '.join('%d=%s' % (i, n) for n, i in t.vars.items())))
         for name, typ, text in t.blocks:
             lines.append('Definition %s : %s :=' % (name, typ))
             lines.append(textwrap.fill(text, 110, initial_indent='  ', subsequent_indent='  ', break_long_words=False) + '.')
+            if typ == 'stmt':
+                lines.append('Arguments %s : simpl never.' % name)
         lines.append('Definition code_%s : stmt :=' % t.ident)
         lines.append(textwrap.fill(t.text, 110, initial_indent='  ', subsequent_indent='  ', break_long_words=False) + '.')
         lines.append('')
@@ -438,7 +508,8 @@ def generate() -> dict:
     lines.append('Definition role_merge_lin : var := %d.' % merge.roles['lin'])
     lines.append('')
     lines.append('Definition mro_code : code :=')
-    lines.append('  {| ' + ';\n     '.join('%s := code_%s' % (field, t.ident) for field, t in fns) + ' |}.')
+    lines.append('  {| ' + ';\n     '.join('%s := code_%s' % (field, t.ident) for field, t in fns)
+                 + ';\n     c_helpers := [%s] |}.' % '; '.join('code_%s' % h.ident for h in helpers))
     return {'MroCode.v': '\n'.join(lines) + '\n'}
 
 
